@@ -44,7 +44,7 @@ def run(ctx: Ctx):
     res.rule("TABLE-AGREE", "the constraint names are identical (and identically ordered where position is meaning) in validate_constraints' parameters, constraints_list, constraints_names, the proximal_operator dispatch and the five signatures; each dispatch branch applies the operator recorded for its name", floor=60)
     res.rule("KW-FORWARD", "at every hop each constraint keyword is passed as k=k (or k=self.k); n_const is the tensor order; subscripts of factors/dual_variables/factors_aux and order= agree inside a statement", floor=80)
     res.rule("PROX-TYPESTATE", "the primal returned by admm on the constrained path is a proximal_operator output (or the start value); constrained_parafac stores factors[mode] only from admm(...)[0]; the svd/random initialiser returns prox outputs", floor=4)
-    res.rule("VALIDATE-FIRST", "validate_constraints runs in constrained_parafac before the initialiser on every path and raises when a mode would be constrained twice", floor=4)
+    res.rule("VALIDATE-FIRST", "validate_constraints runs in constrained_parafac before the initialiser on every path and raises when a mode would be constrained twice", floor=3)
     res.rule("INDEX-AGREE", "in validate_constraints' registration helper the constraint table, the parameter table and the user's per-mode specification are indexed by the same key inside each loop", floor=2)
     res.rule("SIGN-HANDLER", "the 'non_negative' dispatch branch returns a value with a non-negative lower clip and no data-dependent upper bound", floor=1)
     res.assume(
@@ -217,6 +217,31 @@ def kw_forward(ctx, names, vc, po, admm, icp, cp, init, ft):
                 ct = repo.resolve_call(caller, caller.module, c)
                 if ct.kind == "repo" and callee in ct.funcs:
                     sites.append((c, ct))
+        # the hop may sit in a local helper (`def project(point): return proximal_operator(point, k=k, ...)`):
+        # the helper reads the caller's k either as a closure variable it never rebinds or, after lambda
+        # lifting, as a keyword-only parameter that every call of the helper fills with k=k.
+        for hname, helpers in caller.nested_all.items():
+            for h in helpers:
+                hsites = []
+                for c in own_scope_nodes(h.node):
+                    if isinstance(c, ast.Call):
+                        ct = repo.resolve_call(h, h.module, c)
+                        if ct.kind == "repo" and callee in ct.funcs:
+                            hsites.append((c, ct))
+                if not hsites:
+                    continue
+                hbound = {x.id for x in own_scope_nodes(h.node) if isinstance(x, ast.Name) and isinstance(x.ctx, ast.Store)}
+                passed = names + [n for n in ("n_const", "order") if n in callee.all_params]
+                for n in passed:
+                    if n in hbound:
+                        ctx.finding("KW-FORWARD", caller, h.node, f"local helper {hname} rebinds `{n}` before forwarding it to {callee.name}", construct=f"{caller.name}.{hname}: rebinds {n}")
+                    elif n in h.all_params:
+                        for c2 in own_scope_nodes(caller.node):
+                            if isinstance(c2, ast.Call) and is_name(c2.func, hname):
+                                kw = {k.arg: k.value for k in c2.keywords}
+                                if not is_name(kw.get(n), n):
+                                    ctx.finding("KW-FORWARD", caller, c2, f"local helper {hname} receives `{n}` as `{src(kw[n]) if n in kw else '<default>'}` rather than {n}={n}", construct=f"{caller.name}->{hname}: {n}={src(kw[n]) if n in kw else '<missing>'}")
+                sites.extend(hsites)
         if not sites:
             raise AnalysisError(f"KW-FORWARD: hop {caller.qname} -> {callee.name} vanished")
         for c, ct in sites:
@@ -283,42 +308,65 @@ def _enclosing_stmt(f, node):
 
 # ---------------------------------------------------------------------------------
 class _AdmmRule:
+    """Typestate of every local of admm: "start" (the primal start value `x` or a plain copy
+    of it), "prox" (a proximal_operator output, directly or through a helper all of whose
+    returns are proximal_operator calls) or "other:<stmt>".  Names do not matter: the rule
+    follows whichever local ends up as the first return component."""
+
     def __init__(self, f, xname, repo):
         self.f, self.x, self.repo = f, xname, repo
 
     def init_state(self):
-        return "start"
+        return ((self.x, "start"),)
+
+    def _is_prox_call(self, v, depth=0):
+        if not isinstance(v, ast.Call) or depth > 2:
+            return False
+        ct = self.repo.resolve_call(self.f, self.f.module, v)
+        if ct.kind != "repo" or not ct.funcs:
+            return False
+        for g in ct.funcs:
+            if g.name == "proximal_operator":
+                continue
+            rets = [n for n in own_scope_nodes(g.node) if isinstance(n, ast.Return)]
+            if not rets or not all(r.value is not None and self._is_prox_call(r.value, depth + 1) for r in rets):
+                return False
+        return True
+
+    def _tag(self, v, env):
+        if isinstance(v, ast.Name):
+            return env.get(v.id, "other:" + v.id)
+        if self._is_prox_call(v):
+            return "prox"
+        return "other:" + src(v)[:80]
 
     def transfer(self, node, st, ex):
         a = node.ast
+        env = dict(st)
         if node.kind in ("stmt", "for", "with") and a is not None:
-            tnames = set()
             if isinstance(a, ast.Assign):
                 for t in a.targets:
-                    for x in ast.walk(t):
-                        if isinstance(x, ast.Name) and isinstance(x.ctx, ast.Store):
-                            tnames.add(x.id)
-                if self.x in tnames:
-                    v = a.value
-                    if len(a.targets) == 1 and is_name(a.targets[0], self.x) and isinstance(v, ast.Call):
-                        ct = self.repo.resolve_call(self.f, self.f.module, v)
-                        if ct.kind == "repo" and ct.funcs[0].name == "proximal_operator":
-                            return "prox"
-                    return "other:" + src(a)
-            elif isinstance(a, (ast.AugAssign,)) and is_name(a.target, self.x):
-                return "other:" + src(a)
+                    if isinstance(t, ast.Name):
+                        env[t.id] = self._tag(a.value, env)
+                    else:
+                        for x in ast.walk(t):
+                            if isinstance(x, ast.Name) and isinstance(x.ctx, ast.Store):
+                                env[x.id] = "other:" + src(a)[:80]
+            elif isinstance(a, ast.AugAssign) and isinstance(a.target, ast.Name):
+                env[a.target.id] = "other:" + src(a)[:80]
+            elif isinstance(a, ast.AnnAssign) and isinstance(a.target, ast.Name) and a.value is not None:
+                env[a.target.id] = self._tag(a.value, env)
             elif isinstance(a, ast.For):
-                if self.x in {x.id for x in ast.walk(a.target) if isinstance(x, ast.Name)}:
-                    return "other:" + src(a.target)
+                for x in ast.walk(a.target):
+                    if isinstance(x, ast.Name):
+                        env[x.id] = "other:" + src(a.target)
         if node.kind == "return" and a.value is not None:
             v = a.value
             first = v.elts[0] if isinstance(v, ast.Tuple) and v.elts else v
-            if is_name(first, self.x):
-                if st.startswith("other"):
-                    ex.report(("PROX-TYPESTATE", src(a)), f"admm returns `{self.x}` last defined by `{st[6:]}`, which is not a proximal_operator output: the primal handed back is not guaranteed to satisfy the constraint", node)
-            else:
-                ex.report(("PROX-TYPESTATE", src(a)), f"admm's first return component is `{src(first)}`, not the primal variable produced by the proximal operator", node)
-        return st
+            tag = self._tag(first, env)
+            if tag.startswith("other"):
+                ex.report(("PROX-TYPESTATE", src(a)), f"admm's first return component `{src(first)}` was last defined by `{tag[6:]}`, which is not a proximal_operator output: the primal handed back is not guaranteed to satisfy the constraint", node)
+        return tuple(sorted(env.items()))
 
 
 class _InitRule:
@@ -370,6 +418,9 @@ def prox_typestate(ctx, names, po, admm, icp, cp):
                         if isinstance(s, ast.Assign) and isinstance(t, ast.Tuple) and i == 0 and isinstance(s.value, ast.Call):
                             ct = repo.resolve_call(cp, cp.module, s.value)
                             ok = ct.kind == "repo" and admm in ct.funcs
+                        elif isinstance(s, ast.Assign) and not isinstance(t, ast.Tuple) and isinstance(s.value, ast.Name):
+                            # `a, b, c = admm(...)` ... `factors[mode] = a`: a single-definition temporary
+                            ok = _first_of_admm(repo, cp, admm, s.value.id)
                         res.instance("PROX-TYPESTATE", f"{cp.qname}: store {src(e)}", sample={"stmt": src(s)[:120], "ok": ok})
                         if not ok:
                             ctx.finding("PROX-TYPESTATE", cp, s, f"`{src(e)}` is stored from something other than the first component of admm(...): the returned factor need not be a proximal-operator output", construct=src(s))
@@ -401,6 +452,35 @@ def prox_typestate(ctx, names, po, admm, icp, cp):
             raise AnalysisError(f"initialize_constrained_parafac: no path for init={initv!r}")
         for v in ex.violations.values():
             ctx.finding("PROX-TYPESTATE", icp, v.node.ast, v.message + f" [init={initv!r}]", construct=v.key[1] + f" [init={initv}]", path=v.path)
+
+
+def _first_of_admm(repo, cp, admm, name):
+    """Every definition of local `name` in cp is component 0 of an admm(...) result."""
+    defs = []
+    for s in own_scope_nodes(cp.node):
+        if isinstance(s, ast.Assign):
+            for t in s.targets:
+                elts = t.elts if isinstance(t, (ast.Tuple, ast.List)) else [t]
+                for i, e in enumerate(elts):
+                    if isinstance(e, ast.Name) and e.id == name:
+                        good = False
+                        if isinstance(s.value, ast.Call):
+                            ct = repo.resolve_call(cp, cp.module, s.value)
+                            if ct.kind == "repo" and admm in ct.funcs:
+                                good = (isinstance(t, (ast.Tuple, ast.List)) and i == 0)
+                        elif isinstance(s.value, ast.Subscript) and isinstance(s.value.value, ast.Call) and isinstance(s.value.slice, ast.Constant) and s.value.slice.value == 0 and not isinstance(t, (ast.Tuple, ast.List)):
+                            ct = repo.resolve_call(cp, cp.module, s.value.value)
+                            good = ct.kind == "repo" and admm in ct.funcs
+                        defs.append(good)
+                    elif isinstance(e, ast.Starred) and is_name(e.value, name):
+                        defs.append(False)
+        elif isinstance(s, (ast.AugAssign, ast.AnnAssign)) and is_name(s.target, name):
+            defs.append(False)
+        elif isinstance(s, (ast.For, ast.comprehension)) and any(isinstance(x, ast.Name) and x.id == name for x in ast.walk(s.target)):
+            defs.append(False)
+        elif isinstance(s, (ast.withitem,)) and s.optional_vars is not None and any(isinstance(x, ast.Name) and x.id == name for x in ast.walk(s.optional_vars)):
+            defs.append(False)
+    return bool(defs) and all(defs)
 
 
 def _first_line_of_loop(f):
@@ -439,20 +519,46 @@ def validate_first(ctx, vc, cp, icp):
     res.instance("VALIDATE-FIRST", f"{cp.qname}: validate before initialise", sample={"states": ex.states})
     for v in ex.violations.values():
         ctx.finding("VALIDATE-FIRST", cp, v.node.ast, v.message, construct=v.key[1], path=v.path)
-    # every modes_constrained.add(X) is guarded by a raise on prior membership
+    # every recording of a mode into the "already constrained" set is guarded by a raise on
+    # prior membership (or, for a bulk recording, on the set being non-empty).  The set is
+    # whichever local of validate_constraints is initialised with set(); recordings are
+    # looked for in the function and its local helpers.
+    sets = set()
+    for st in own_scope_nodes(vc.node):
+        if isinstance(st, ast.Assign) and len(st.targets) == 1 and isinstance(st.targets[0], ast.Name) and isinstance(st.value, ast.Call) and is_name(st.value.func, "set") and not st.value.args:
+            sets.add(st.targets[0].id)
     adds = []
     par = {}
     for n in ast.walk(vc.node):
         for c in ast.iter_child_nodes(n):
             par[id(c)] = n
-    for c in own_scope_nodes(vc.node):
-        if isinstance(c, ast.Call) and isinstance(c.func, ast.Attribute) and c.func.attr == "add" and is_name(c.func.value, "modes_constrained"):
+    for c in ast.walk(vc.node):
+        if isinstance(c, ast.Call) and isinstance(c.func, ast.Attribute) and c.func.attr in ("add", "update") and isinstance(c.func.value, ast.Name) and c.func.value.id in sets:
+            adds.append(c)
+        elif isinstance(c, ast.AugAssign) and isinstance(c.target, ast.Name) and c.target.id in sets:
             adds.append(c)
     if not adds:
         raise AnalysisError("validate_constraints: modes_constrained bookkeeping vanished")
+
+    def nonempty_test(t, S):
+        if is_name(t, S):
+            return True
+        if isinstance(t, ast.Call) and is_name(t.func, "len") and t.args and is_name(t.args[0], S):
+            return True
+        if isinstance(t, ast.Compare) and len(t.ops) == 1 and isinstance(t.left, ast.Call) and is_name(t.left.func, "len") and t.left.args and is_name(t.left.args[0], S) and isinstance(t.comparators[0], ast.Constant):
+            k, op = t.comparators[0].value, t.ops[0]
+            return (k == 0 and isinstance(op, (ast.Gt, ast.NotEq))) or (k == 1 and isinstance(op, ast.GtE))
+        return False
+
+    def member_test(t, S, elem):
+        return isinstance(t, ast.Compare) and len(t.ops) == 1 and isinstance(t.ops[0], ast.In) and is_name(t.comparators[0], S) and src(t.left) == elem
+
     for c in adds:
-        elem = src(c.args[0]) if c.args else ""
-        # find the enclosing blocks from the add upwards and look for a guard-raise before it
+        if isinstance(c, ast.Call):
+            S = c.func.value.id
+            elem = src(c.args[0]) if (c.func.attr == "add" and c.args) else None
+        else:
+            S, elem = c.target.id, None
         guarded = False
         n = c
         while id(n) in par and not guarded:
@@ -461,16 +567,16 @@ def validate_first(ctx, vc, cp, icp):
                 blk = getattr(p, fld, None)
                 if isinstance(blk, list) and any(x is n for x in blk):
                     for st in blk[: [i for i, x in enumerate(blk) if x is n][0]]:
-                        if isinstance(st, ast.If) and any(isinstance(x, ast.Raise) for x in ast.walk(st)):
-                            t = src(st.test)
-                            if (f"{elem} in modes_constrained" in t) or ("len(modes_constrained) > 0" in t) or ("modes_constrained" in t and "len(" in t):
+                        if isinstance(st, ast.If) and st.body and isinstance(st.body[-1], ast.Raise):
+                            tests = st.test.values if isinstance(st.test, ast.BoolOp) and isinstance(st.test.op, ast.Or) else [st.test]
+                            if any(nonempty_test(t, S) or (elem is not None and member_test(t, S, elem)) for t in tests):
                                 guarded = True
             n = p
             if isinstance(p, (ast.FunctionDef,)):
                 break
-        res.instance("VALIDATE-FIRST", f"validate_constraints: {src(c)} guarded", sample={"guarded": guarded})
+        res.instance("VALIDATE-FIRST", f"validate_constraints: {src(c)[:60]} guarded", sample={"guarded": guarded})
         if not guarded:
-            ctx.finding("VALIDATE-FIRST", vc, c, f"mode `{elem}` is recorded as constrained without first raising if it already was: two constraints on one mode are accepted silently", construct=src(c))
+            ctx.finding("VALIDATE-FIRST", vc, c, f"`{src(c)[:80]}` records modes as constrained without first raising if they already were: two constraints on one mode are accepted silently", construct=src(c))
 
 
 def index_agree(ctx, vc):
